@@ -251,7 +251,13 @@ class Check:
             self.broken.append({"step": "axiom audit", "what": json.dumps(bad)[:1500] + " :: " + text[-800:]})
         # hygiene grep over hand-written + generated lean
         hits = []
+        own = {f.resolve() for f in files}
         for f in sorted((LEAN / "PgVerif").rglob("*.lean")):
+            # the property's own theorem files and everything they can import (models, lemmas, ties, specs, generated text);
+            # other properties' theorem files are audited by their own checks
+            rel = f.relative_to(LEAN / "PgVerif").parts
+            if rel[0] == "Props" and f.resolve() not in own and not (len(rel) > 1 and rel[1] == self.pid):
+                continue
             for i, line in enumerate(strip_lean_comments(f.read_text()).splitlines(), 1):
                 if HYGIENE_RE.search(line):
                     hits.append(f"{f.relative_to(LEAN)}:{i}: {line.strip()[:100]}")
